@@ -139,7 +139,7 @@ def extD6 : Ext := ⟨fun l => if l = lineD6 then .object [(kMessage, .nonStr)] 
 
 /-- D6: with unchecked assertions the stderr line `{"@message": 5}` panics the goroutine. -/
 theorem parsejson_panic_witness :
-    (stderrLoop ⟨false, 65536⟩ extD6 64 (lineD6 ++ [10])).panicked = true := by decide
+    (stderrLoop ⟨false, 65536, true⟩ extD6 64 (lineD6 ++ [10])).panicked = true := by decide
 
 /-- D7 at any token limit `M` (in particular 65536): a stdout line of `M` bytes stops the scanner
 (`ErrTooLong`) and, when nothing drains afterwards, its `\n` is never read. -/
@@ -155,7 +155,7 @@ theorem stdout_undrained_lines_witness : Scanner.consumes ⟨4, false, true⟩ [
 /-! ### Non-vacuity -/
 
 def extNone : Ext := ⟨fun _ => .notObject, fun _ => false⟩
-def good : Params := ⟨true, 65536⟩
+def good : Params := ⟨true, 65536, true⟩
 
 example : good.Good := by decide
 example : (⟨65536, true, true⟩ : Scanner.DrainParams).Good := by decide
@@ -195,5 +195,12 @@ theorem stderr_taken_after_exit (R : ReaderParams) (hR : R.Good) (unread : Nat) 
 
 /-- Witness: a reader that the exit watcher does not wait for loses everything still in the pipe -/
 theorem pipe_closed_early_witness : stderrTakenAfterExit ⟨true, true, false⟩ 700 = 0 := by decide
+
+/-- **Every field of an hclog line is a field of the record**, whatever its value (null, zero, empty). -/
+theorem all_fields_kept (P : Params) (hP : P.Good) (skipped : Bytes → Bool) (keys : List Bytes) : keptKeys P skipped keys = keys := by
+  simp [keptKeys, hP.2]
+
+/-- Witness: a nil-guard in the flattening drops `err=null` -/
+theorem nil_guard_witness : keptKeys ⟨true, 65536, false⟩ (fun k => k == [101, 114, 114]) [[110], [101, 114, 114]] = [[110]] := by decide
 
 end GoPlugin.Props.C10
